@@ -11,8 +11,8 @@ PROP = dict(
         "ntp_proto::packet::extension_fields::{ExtensionFieldData::{deserialize, serialize}, ExtensionField::{decode, serialize, encode_*}}",
         "ntp_proto::packet::v5::extension_fields::{ReferenceIdRequest::{decode, to_response}, ReferenceIdResponse::serialize}",
     ],
-    bounds=("NTPv3/NTPv4 requests of 48 bytes and 48 + MAC(4, 20, 24) bytes with all content bytes symbolic; "
-            "first bytes: v3/v4 client (LI 0) under 4 policies (serve, deny by address, deny non-NTS, ignore non-NTS), plus 15 other first bytes (LI 3, all other v4 modes, versions 0,1,2,6,7, v5 without draft id); " + _shape),
+    bounds=("NTPv3/NTPv4 requests of 48 bytes and 48 + MAC(4, 20, 24) bytes with all content bytes symbolic (malformed sizes such as 47/50 bytes: symex > 4.6 GB, left to C23); "
+            "first bytes: v3/v4 client (LI 0) under 4 policies (serve, deny by address, deny non-NTS, ignore non-NTS), plus first bytes LI 3 (v3, v4) and v4 modes 0,1,2 (harnesses for modes 4..7 and versions 0,1,2,6,7 exist, c18_echo_first_byte_b/_c, but exceed 8 GB and are not registered); " + _shape),
     outside=("ANY request that carries extension fields, hence the whole 'reflect nothing else' half of the property and all of NTPv5: harnesses exist (c18_reflect_v4_time/_deny, c18_reflect_v5 on bytes; c18_fields_v4_time/_deny on the unserialized answer) "
              "but are not registered: one answer with one echoed field = 570 s symex and the solver exceeds 8 GB (every pointer-iterating loop over Vec<ExtensionField> and the io::Error drop glue is unrolled to the unwind bound, nested); "
              "symbolic lengths, first bytes or field types (symbolic execution does not terminate, measured); "
@@ -34,8 +34,6 @@ PROP = dict(
         H(NP, "c18", "c18_echo_v3", "NTPv3 48/52-byte requests under 4 policies: time/DENY answer header fields per RFC 5905 oracle (byte level), ignored when NTS required", timeout=900),
         H(NP, "c18", "c18_echo_v4", "NTPv4 48/52-byte requests: same, plus the v5 upgrade marker", timeout=900),
         H(NP, "c18", "c18_echo_first_byte_a", "first bytes LI 3 (v4, v3) answered like LI 0; v4 modes 0,1,2 dropped", tier="thorough", timeout=1800),
-        H(NP, "c18", "c18_echo_first_byte_b", "v4 modes 4..7 and version 0 dropped", tier="thorough", timeout=1800),
-        H(NP, "c18", "c18_echo_first_byte_c", "versions 1,2,6,7 and a v5 request without draft identification dropped", tier="thorough", timeout=1800),
-        H(NP, "c18", "c18_echo_mac_sizes", "v4 requests with 20/24-byte MAC answered (MAC not reflected); 47- and 50-byte datagrams dropped", tier="thorough", timeout=1800),
+        H(NP, "c18", "c18_echo_mac_sizes", "v4 requests with 20/24-byte MAC answered, MAC not reflected", tier="thorough", timeout=1800),
     ],
 )
